@@ -17,11 +17,12 @@ ALPH = {
     'table': ['|', '-', '\n', 'a', '&', '\\', '%'],
 }
 DEPTH = {'quick': dict(text=5, link=5, code=6, table=6), 'thorough': dict(text=7, link=6, code=7, table=8)}
+ROLE_STRINGS = ['\\', '{', '}', '#', '%', '&', '_', '^', '$', '~', 'a_b', 'x}', '50%', '{y', '\\z', '$1', 'a&b', '^2', '#3', '~4']
 EDIT = {'quick': ['\\', '}', '%', '$'], 'thorough': ['\\', '{', '}', '%', '$', '#', '&', '_', '^']}
 
 
 def describe(tier):
-    return dict(alphabets=ALPH, depth=DEPTH[tier], edit1_tokens=EDIT[tier])
+    return dict(alphabets=ALPH, depth=DEPTH[tier], edit1_tokens=EDIT[tier], role_strings=ROLE_STRINGS, roles='every ordered pair of %d syntactic roles' % len(spaces.ROLE_CONTEXTS))
 
 
 def jobs(tier):
@@ -32,6 +33,8 @@ def jobs(tier):
             js.append(('words', name, j[1], j[2]))
     for lo in range(0, 652, 8):
         js.append(('edit', lo, lo + 8, tier))
+    for i in range(len(ROLE_STRINGS)):
+        js.append(('roles', i))
     return js
 
 
@@ -85,6 +88,10 @@ def run_job(job):
         for w in core.words_of_job(alpha, prefix, k):
             run_text(r, ''.join(w))
         r.sample(dict(space=name, text=''.join(alpha[i] for i in (prefix or ())) + alpha[0]), 1)
+    elif job[0] == 'roles':
+        for key, text in spaces.role_documents([ROLE_STRINGS[job[1]]]):
+            run_text(r, text)
+        r.sample(dict(space='roles', string=ROLE_STRINGS[job[1]], roles=[c[0] for c in spaces.ROLE_CONTEXTS]), 1)
     else:
         from checks import c02
         for ex in c02.corpus()[job[1]:job[2]]:
